@@ -92,7 +92,7 @@ def run_case(case, obs):
         case["tspec"] = tspec
     transforms = make_transforms(tspec) if use_t else None
     ev = ens.RecordingEvaluator(spec)
-    tol = [None, 1e-10, 0.05, 0.5][int(rng.integers(4))]
+    tol = [None, 0.0, 1e-10, 0.05, 0.5][int(rng.integers(5))]
     ctx = OptimizerContext(evaluator=ev, plugin_manager=ens.plugin_manager())
     seen = []
     from ropt.enums import EventType  # noqa: PLC0415
